@@ -9,7 +9,8 @@
    Checked: the model printer writes the real tokens (both prints); the model parser reads the real
    tokens back as a descriptor with the content of the real re-parsed one (keys and list orders aside);
    both real descriptors satisfy the hypotheses of the file theorem (wf_dfile_b: they are inside
-   C05_token_roundtrip). *)
+   C05_token_roundtrip) and their json names / file option strings are plain text (where the model's quoting is
+   the code's strconv.Quote / raw writing). *)
 From Coq Require Import String List NArith ZArith Bool.
 From J5V.lib Require Import Outcome Corr.
 From J5V.model Require Import ProtoPrintLit ProtoPrint ProtoPrintCorr ProtoPrintFile ProtoParseFile ProtoPrintFileWf.
@@ -141,6 +142,7 @@ Definition c05_file_check (c : c05file) : bool :=
              | None => false
              end
           && wf_dfile_b imp d && wf_dfile_b imp d2
+          && strings_plain d && strings_plain d2
       | None => false
       end
   end.
@@ -160,7 +162,8 @@ Definition c05_file_diag (c : c05file) : N :=
                 match interp_file imp s with
                 | None => 4
                 | Some d' => if negb (dfile_content_eqb d' d2) then 5
-                             else if negb (wf_dfile_b imp d) then 6 else if negb (wf_dfile_b imp d2) then 7 else 0
+                             else if negb (wf_dfile_b imp d) then 6 else if negb (wf_dfile_b imp d2) then 7
+                             else if negb (strings_plain d && strings_plain d2) then 8 else 0
                 end
             end
       | None => 9
